@@ -4,10 +4,11 @@ CONSTANTS
   Ring <- TRing
   Patterns = {}
   Paths = {}
+  Addrs = {}
   CacheSize = 2
   MaxOps = 100000000
   FineGrain = FALSE
 CONSTRAINT HW
-INVARIANTS OwnLocation CacheBounded
+INVARIANTS OwnLocation OwnDecision CacheBounded
 POSTCONDITION Accepted
 CHECK_DEADLOCK FALSE
